@@ -21,11 +21,13 @@ import json
 import random
 import sys
 import traceback
+from decimal import Decimal
 from io import StringIO
 
 from lxml import etree
 
 import xs_gen as G
+from xs_xsd import CType as D_CType
 import xs_lib as X
 from xs_lib import min_len_flag
 from sdc11073.mdib import descriptorcontainers, statecontainers
@@ -46,6 +48,7 @@ class _FrozenTime:
 
 xs.time = _FrozenTime
 XS = '{http://www.w3.org/2001/XMLSchema}'
+WRAP_NS = 'urn:verif:wrap'     # target namespace of the per-type wrapper elements (valid under any default namespace)
 
 
 # ------------------------------------------------------------------------------------------------ XSD
@@ -74,7 +77,8 @@ def mk_validator(types):
     tmp.write('<?xml version="1.0" encoding="UTF-8"?>')
     prefixes = {e.value.namespace: e.value.prefix for e in PrefixesEnum}
     decl = ' '.join(f'xmlns:{p}="{ns}"' for ns, p in prefixes.items() if p not in ('xsd', 'xml'))
-    tmp.write(f'<xsd:schema xmlns:xsd="http://www.w3.org/2001/XMLSchema" {decl} elementFormDefault="qualified">\n')
+    tmp.write(f'<xsd:schema xmlns:xsd="http://www.w3.org/2001/XMLSchema" {decl} elementFormDefault="qualified" '
+              f'targetNamespace="{WRAP_NS}">\n')
     for entry in specs:
         if entry.schema_location_url is not None and entry.prefix != 'xsd':
             tmp.write(f'<xsd:import namespace="{entry.namespace}" schemaLocation="{entry.schema_location_url}"/>\n')
@@ -94,7 +98,7 @@ def root_tag(cls, types, elems, prefixes):
         if key in elems:
             return nt, True
         if key in types:
-            return f't__{prefixes[nt.namespace]}__{nt.localname}', not types[key]
+            return etree.QName(WRAP_NS, f't__{prefixes[nt.namespace]}__{nt.localname}'), not types[key]
     return etree.QName(X.VERIF_NS, 'Root'), False
 
 
@@ -176,7 +180,37 @@ def absent_expect(p):
     return [X.canon(d)]
 
 
-def absent_members(node, obj, out, path='', depth=0):
+def effective_ctype(cls, inherited=None):
+    """schema type of cls: the one its NODETYPE names, else (anonymous types) the type of the particle it is the value of"""
+    own, _ = G.get_index().for_qname(getattr(cls, 'NODETYPE', None))
+    return own if own is not None else inherited
+
+
+def child_ctype(ct, qn):
+    """type of the element particle qn of ct, when it is a complex type"""
+    if ct is None or qn is None:
+        return None
+    for e in ct.elems:
+        if e.qname == qn.text:
+            t = G.get_index().elem_type(e)
+            return t if isinstance(t, D_CType) else None
+    return None
+
+
+def schema_default(cls, p, ct=None):
+    """text form of the value the SCHEMA documents for the member when it is absent (default= or the sentence `The
+    implied value SHALL be "..."` in the xsd:documentation) - independent of the library's declaration"""
+    ct = effective_ctype(cls, ct)
+    if ct is None:
+        return None
+    if isinstance(p, xs._AttributeBase):  # noqa: SLF001
+        an = p._attribute_name  # noqa: SLF001
+        return ct.adefault.get(an.text if isinstance(an, etree.QName) else an)
+    qn = p._sub_element_name  # noqa: SLF001
+    return None if qn is None else next((e.implied for e in ct.elems if e.qname == qn.text), None)
+
+
+def absent_members(node, obj, out, path='', depth=0, ct=None):
     """the clause `absent optional parts yield the implied / default value`, evaluated on (document, value read
     from it) - independent of how the document was made and of what the instance held before"""
     if depth > 6 or not X.is_struct(obj):
@@ -190,12 +224,27 @@ def absent_members(node, obj, out, path='', depth=0):
             out.append(('member absent in the XML is not the implied/default value', f'{path}.{name}',
                         {'seen': short(str(seen), 200), 'expected': short(str(want[-1]), 200),
                          'descriptor': type(p).__name__}))
+        sd = schema_default(type(obj), p, ct)
+        if sd is not None:
+            try:
+                sd_val = p._converter.to_py(sd)  # noqa: SLF001
+            except Exception:  # noqa: BLE001
+                sd_val = sd
+            pub = getattr(obj, name)
+            num = (int, float, Decimal)
+            same = X.canon(pub) == X.canon(sd_val) or (
+                isinstance(pub, num) and isinstance(sd_val, num) and not isinstance(pub, bool) and pub == sd_val)
+            if not same:
+                out.append(('member absent in the XML is not the value the schema documents for it', f'{path}.{name}',
+                            {'seen': short(str(seen), 200), 'schema documents': sd, 'descriptor': type(p).__name__,
+                             'declaration': f'implied_py_value={p._implied_py_value!r} default_py_value={p._default_py_value!r}'}))  # noqa: SLF001
         raw = obj.__dict__.get(p._local_var_name)  # noqa: SLF001
         d = p._default_py_value  # noqa: SLF001
         if raw is not None and raw is d and X.is_mutable(d):
             out.append(('absent member is the class-level default object', f'{path}.{name}', {}))
+    here = effective_ctype(type(obj), ct)
     for sub, val, pth in struct_children(node, obj):
-        absent_members(sub, val, out, path + pth, depth + 1)
+        absent_members(sub, val, out, path + pth, depth + 1, child_ctype(here, etree.QName(sub)))
 
 
 def thin(node, obj, gen, rng, p_del, depth=0):
@@ -496,6 +545,107 @@ def falsy_pass(cls, tag, validate, schema, rng, res, count):
                                     'detail': dict(det, falsy_member=name, xml=short(b1))})
 
 
+# ---- non-default namespace configurations: NamespaceHelper(default_ns=...), other prefixes, a default namespace in
+# the ns map, namespace subsets; containers are written WITH xsi:type (mk_node(set_xsi_type=True) = mk_state_node)
+_NS_VARIANTS = None
+
+
+def ns_variants():
+    global _NS_VARIANTS
+    if _NS_VARIANTS is None:
+        from sdc11073.namespaces import NamespaceHelper
+        out = []
+        full = dict(X.NSMAP)
+        for name in ('PM', 'MSG', 'EXT'):
+            ns = getattr(X.NS_HELPER, name).namespace
+            h = NamespaceHelper(PrefixesEnum, default_ns=ns)
+            m = dict(full)
+            m[None] = ns
+            out.append((f'NamespaceHelper(default_ns={name})', h, m))
+        renamed = {f'q{i}': ns for i, (pfx, ns) in enumerate(sorted(full.items())) if pfx not in ('xml',)}
+        out.append(('other prefixes (q0, q1, ...)', None, renamed))
+        _NS_VARIANTS = out
+    return _NS_VARIANTS
+
+
+def used_namespaces(node):
+    res = set()
+    for el in node.iter():
+        if isinstance(el.tag, str):
+            res.add(etree.QName(el).namespace)
+            for k in el.attrib:
+                res.add(etree.QName(k).namespace)
+    res.discard(None)
+    return res
+
+
+def ns_config_checks(obj, cls, tag, validate, schema, reference_canon, fails, count):
+    from sdc11073.namespaces import QN_TYPE, text_to_qname
+    is_cont = isinstance(obj, X.containerbase.ContainerBase)
+    variants = list(ns_variants())
+    if not is_cont:     # a subset: only the namespaces that occur in the document (+ xsi and the QName value pool)
+        base = X.serialise(obj, tag)
+        need = used_namespaces(base) | set(G.NS_POOL) | {X.NSMAP['xsi']}
+        variants.append(('namespace subset', None, {k: v for k, v in X.NSMAP.items() if v in need}))
+    for label, helper, ns_map in variants:
+        if is_cont and helper is None:
+            continue
+        dns = (ns_map or {}).get(None)
+        if dns is not None and any(isinstance(p, (xs.NodeTextQNameProperty, xs.NodeTextQNameListProperty)) and raw is not None
+                                   and any(q.namespace == dns for q in (raw if isinstance(raw, list) else [raw])
+                                           if isinstance(q, etree.QName))
+                                   for (_, p), raw in walk_fields(obj)):
+            # element.text = QName(<default namespace>, ...) makes this lxml dereference a NULL prefix (SIGSEGV, pure
+            # lxml reproduction); the case is probed in a child process by run_classes, not here
+            count('ns_config_skipped_qname_text_in_default_namespace')
+            continue
+        count('ns_config_cases')
+        count('ns_config: ' + label.split('(')[0].strip() + ('' if helper is None else ' ' + label.split('=')[-1].rstrip(')')))
+        stage = 'write'
+        try:
+            if is_cont:
+                node = obj.mk_node(tag, helper, set_xsi_type=True)
+            else:
+                node = obj.as_etree_node(tag, dict(ns_map))
+            b1 = tob(node)
+            stage = 'parse'
+            doc = etree.fromstring(b1)
+            if is_cont and cls.NODETYPE is not None:
+                stage = 'resolve xsi:type'
+                qn = text_to_qname(doc.get(QN_TYPE), doc.nsmap)
+                if qn != cls.NODETYPE:
+                    fails.append(('xsi:type written under a non-default namespace configuration resolves to another type',
+                                  'xsi:type', {'configuration': label, 'written': doc.get(QN_TYPE), 'resolves to': qn.text,
+                                               'expected': cls.NODETYPE.text, 'xml': short(b1)}))
+                    continue
+            stage = 'read'
+            back = X.parse(cls, doc)
+        except Exception as ex:  # noqa: BLE001
+            fails.append((f'{stage} raises {type(ex).__name__} under a non-default namespace configuration',
+                          'xsi:type' if 'xsi' in stage or 'QName' in str(ex) else last_member(ex),
+                          {'configuration': label, 'error': short(str(ex), 300),
+                           'xml': short(b1) if stage != 'write' else None}))
+            continue
+        cb = X.canon(back)
+        if cb != reference_canon:
+            path, a, b_ = X.canon_diff(reference_canon, cb)
+            fails.append(('value read back differs under a non-default namespace configuration', path,
+                          {'configuration': label, 'written': short(str(a), 200), 'read': short(str(b_), 200), 'xml': short(b1),
+                           'descriptor': descriptor_at(back, path)}))
+        if validate and not schema.validate(doc):
+            err = schema.error_log[0]
+            fails.append(('not schema-valid under a non-default namespace configuration', xsd_member(err.message),
+                          {'configuration': label, 'error': err.message[:400], 'xml': short(b1, 900)}))
+        try:
+            b2 = tob(back.mk_node(tag, helper, set_xsi_type=True) if is_cont else back.as_etree_node(tag, dict(ns_map)))
+            if b2 != b1:
+                fails.append(('second write differs under a non-default namespace configuration', diff_tag(b1, b2),
+                              {'configuration': label, 'first': short(b1), 'second': short(b2)}))
+        except Exception as ex:  # noqa: BLE001
+            fails.append((f'second write raises {type(ex).__name__} under a non-default namespace configuration',
+                          last_member(ex), {'configuration': label, 'xml': short(b1)}))
+
+
 def run_classes():
     import hashlib
     types, elems = load_schema_index()
@@ -607,6 +757,9 @@ def run_classes():
                     res['fail'].append({'clause': 'not schema-valid', 'member': xsd_member(err.message),
                                         'detail': {'error': err.message[:400], 'xml': short(b1, 900)}})
                     bad = True
+            # ---- the same value under non-default namespace configurations
+            if i < req.get('ns_instances', 3) and c1 == c2 and cls is not X.mex_types.Metadata:
+                ns_config_checks(obj, cls, tag, validate, schema, c1, fails, count)
             # ---- documents with optional parts absent; reading into populated instances
             try:
                 docs = [('as written', b1)]
